@@ -246,6 +246,7 @@ type compiledParser struct {
 	Reads    map[int][]dollarRead
 	Windows  map[int][2]string // production → (low expr, high expr) of the yyDollar slice
 	CasePos  map[int]token.Pos
+	FuncCalls map[int][]string // production → functions (not type conversions, not builtins) called by its action
 }
 
 type dollarRead struct {
@@ -301,7 +302,7 @@ func loadCompiledParser(p *Program) (*compiledParser, string) {
 		}
 		return tv.Value, true
 	}
-	cp := &compiledParser{Assigns: map[int]map[string]bool{}, Reads: map[int][]dollarRead{}, Windows: map[int][2]string{}, CasePos: map[int]token.Pos{}}
+	cp := &compiledParser{Assigns: map[int]map[string]bool{}, Reads: map[int][]dollarRead{}, Windows: map[int][2]string{}, CasePos: map[int]token.Pos{}, FuncCalls: map[int][]string{}}
 	var parseFn *ast.FuncDecl
 	for _, f := range pk.Syntax {
 		if r1, ok := intArrayLit(f, info, "yyR1"); ok {
@@ -362,6 +363,10 @@ func loadCompiledParser(p *Program) (*compiledParser, string) {
 									cp.Windows[n] = [2]string{exprStr(sl.Low), exprStr(sl.High)}
 								}
 							}
+						}
+					case *ast.CallExpr:
+						if tv, ok := pk.TypesInfo.Types[x.Fun]; ok && !tv.IsType() && !tv.IsBuiltin() {
+							cp.FuncCalls[n] = append(cp.FuncCalls[n], exprStr(x.Fun))
 						}
 					case *ast.SelectorExpr:
 						if ie, ok := x.X.(*ast.IndexExpr); ok {
